@@ -10,7 +10,7 @@ def U(s):
     return units(s)
 
 
-def dex_with_strings(strs, use, order=None):
+def dex_with_strings(strs, use, order=None, inflate=False):
     """DEX holding `strs` in its pool; the strings in `use` are also a field name and a const-string operand.
     order: None (string data in index order) | 'reverse' | 'interleave' (a string id only stores an offset)"""
     code = []
@@ -22,6 +22,11 @@ def dex_with_strings(strs, use, order=None):
     g = Dex([cls], extra_strings=strs)
     if order:
         g.layout['string_data_order'] = order
+    if inflate:
+        # every 5th string of the pool (none of those used as names / constants: their sizes stay exact) declares a too large utf16_size
+        raw0 = g.build()
+        used = {g.idx["s"][s] for s in use}
+        g.layout['utf16_size_inflate'] = {k for k in range(0, len(g.idx["s"]), 5) if k not in used}
     return g, g.build()
 
 
@@ -45,7 +50,7 @@ def observe(dex, raw, g, strs, use):
         i = g.idx["s"][s]
         us = U(s)
         r = dict(b=list(mutf8(us)), pool=U(pool[pos[i]]) if pos[i] < len(pool) else [-9], cm=U(cm.get_string(i)), raw=U(cm.get_raw_string(i)),
-                 len=items[pos[i]].get_utf16_size(), use=[-2])
+                 len=items[pos[i]].get_utf16_size() - (3 if i in g.layout.get('utf16_size_inflate', ()) else 0), use=[-2])
         if s in use:
             r["use"] = consts.get(i, [-9]) if tuple(us) in fields else [-8]
         recs.append(r)
@@ -135,7 +140,7 @@ def run(chk):
             batch.add(from_units(us))
         batch = sorted(batch, key=units)
         use = [s for s in batch if s][:60:2]
-        g, raw = dex_with_strings(batch, use, order=(None, "reverse", "interleave")[fno % 3])
+        g, raw = dex_with_strings(batch, use, order=(None, "reverse", "interleave")[fno % 3], inflate=(fno % 2 == 1))
         recs, _ = observe(dex, raw, g, batch, use)
         allrecs += recs
     res = tlc.validate("Mutf8_Trace", "Mutf8_Trace.cfg", allrecs, shards=16, heap="2g")
